@@ -350,6 +350,88 @@ def chain_events(path, first_id):
     return evs
 
 
+# ------------------------------------------------------------------ histories: construct / hash / mutate
+def _hist_construct(kind, W, G):
+    from odl.space.npy_tensors import NumpyTensorSpaceArrayWeighting
+    from odl.space.pspace import ProductSpaceArrayWeighting
+    if kind == 'TW':
+        return NumpyTensorSpaceArrayWeighting(W)
+    if kind == 'PW':
+        return ProductSpaceArrayWeighting(W)
+    if kind == 'rn':
+        return odl.rn(3, weighting=W)
+    if kind == 'discr':
+        return odl.uniform_discr(0, 1, 3, weighting=W)
+    if kind == 'pspace':
+        return odl.ProductSpace(odl.rn(2), 3, weighting=W)
+    if kind == 'grid':
+        return odl.RectGrid(G)
+    part = odl.RectPartition(odl.IntervalProd(0, 1), odl.RectGrid(G))
+    if kind == 'part':
+        return part
+    if kind == 'discrg':
+        return odl.DiscretizedSpace(part, odl.rn(3))
+    raise ValueError(kind)
+
+
+def _coord_array(o):
+    g = o if isinstance(o, odl.RectGrid) else (o.grid if isinstance(o, odl.RectPartition) else o.partition.grid)
+    return g.coord_vectors[0]
+
+
+def run_history(acts, nw):
+    """Execute a history (SetSem!HAct) on fresh caller arrays; observe == and hash of all live objects at the end.
+    hash(o) actions ARE performed when they occur (a remembered hash would be taken there)."""
+    W = [np.array([1.0, 2.0, 3.0]) for _ in range(nw)]            # weight arrays (wrapped by identity)
+    G = [np.array([0.0, 0.5, 1.0]) for _ in range(nw)]            # coordinate arrays (copied by RectGrid)
+    objs = []
+    for a in acts:
+        if a['a'] == 'construct':
+            objs.append(_hist_construct(a['kind'], W[a['w'] - 1], G[a['w'] - 1]))
+        elif a['a'] == 'hash':
+            try:
+                hash(objs[a['o'] - 1])
+            except Exception:
+                pass
+        elif a['a'] == 'mutate':
+            W[a['w'] - 1][1] += 0.5
+            G[a['w'] - 1][1] += 0.0625
+        elif a['a'] == 'mutate-internal':
+            _coord_array(objs[a['o'] - 1])[1] += 0.0625
+    eq = [[L.observe_eq(p, q_) for q_ in objs] for p in objs]
+    hs, h, classes = [], [], {}
+    for o in objs:
+        st, hv = L.observe_hash(o)
+        hs.append(st)
+        h.append(classes.setdefault(hv, len(classes)) if st == 'ok' else -1)
+    return eq, hs, h
+
+
+def _hist_chunk(lines):
+    out = []
+    for line in lines:
+        c = json.loads(line)
+        eq, hs, h = run_history(c['acts'], c['nw'])
+        out.append({'ev': 'hist', 'acts': c['acts'], 'nw': c['nw'], 'eq': eq, 'hs': hs, 'h': h, 'eq_exported': c['eq']})
+    return out
+
+
+def history_events(path, first_id):
+    from multiprocessing import Pool
+    with open(path) as f:
+        lines = f.readlines()
+    chunks = [lines[k:k + 500] for k in range(0, len(lines), 500)]
+    if len(chunks) > 4:
+        with Pool(processes=12) as pool:
+            res = pool.map(_hist_chunk, chunks)
+    else:
+        res = [_hist_chunk(c) for c in chunks]
+    evs = [e for r in res for e in r]
+    for n, e in enumerate(evs):
+        e['id'] = first_id + n
+    return evs
+
+
 # ------------------------------------------------------------------ indexing
 def index_exprs(sp):
     if isinstance(sp, odl.ProductSpace):
@@ -446,6 +528,10 @@ def idx_class(label):
 
 def case_signature(clause, ev):
     """Family of an element() / derived-space / indexing / chain finding."""
+    if ev['ev'] == 'hist':
+        kinds = sorted({a['kind'] for a in ev['acts'] if a['a'] == 'construct'})
+        return {'clause': clause, 'kinds': '+'.join(kinds),
+                'mutated': 'yes' if any(a['a'].startswith('mutate') for a in ev['acts']) else 'no'}
     if ev['ev'] == 'chain':
         # clause, class and dtype class of the start space (the replay file holds the literal chain)
         dt = ev['d']['sub'][1]['s'] if ev['d']['cls'] == 'Discr' else ev['d']['s']
@@ -491,21 +577,30 @@ def run(ctx):
         'duplicated members of unions and finite sets)',
         'the == matrix, hashes and membership are observed twice: on the fresh objects and again after all derived-space / '
         'element / indexing calls on them and after an in-place modification of every wrapped weight array',
-        'a 0-d input offered to a one-entry space is promoted by ndmin and is not counted as an incompatible shape']
+        'a 0-d input offered to a one-entry space is promoted by ndmin and is not counted as an incompatible shape',
+        'near-equal numbers (1-2 ulp) are DIFFERENT numbers: equality of coordinates / constants / exponents is exact '
+        '(approx_equals is the documented tolerant comparison)',
+        'chains of <= 3 derived-space operations run on ONE cached object per start (all dtypes incl. float16, ints) '
+        'and on a fresh equal space; layer A is history-free',
+        'histories of <= 4 actions construct / hash / mutate caller array / mutate coordinates in place / construct '
+        'again: equal => equal hash and the documented (identity resp. value) equality after every history']
     work = ctx.work
     out = os.path.join(work, 'objects.ndjson')
 
     # ---- 1. model ----
     big = '0' if quick else '1'
     chains = os.path.join(work, 'chains.ndjson')
+    hists = os.path.join(work, 'histories.ndjson')
     jobs = [('laws', 'MC_Sets.tla', 'MC_Sets_laws.cfg', {'OUT_FILE': os.devnull, 'ST_BIG': big}, 8),
             ('export', 'MC_Sets.tla', 'MC_Sets_export.cfg', {'OUT_FILE': out, 'ST_BIG': big}, 1),
             ('chains-check', 'MC_SpaceChain.tla', 'MC_SpaceChain_check.cfg', {'OUT_FILE': os.devnull, 'ST_BIG': big}, 4),
-            ('chains-export', 'MC_SpaceChain.tla', 'MC_SpaceChain_export.cfg', {'OUT_FILE': chains, 'ST_BIG': big}, 1)]
+            ('chains-export', 'MC_SpaceChain.tla', 'MC_SpaceChain_export.cfg', {'OUT_FILE': chains, 'ST_BIG': big}, 1),
+            ('histories-check', 'MC_HashHistory.tla', 'MC_HashHistory_check.cfg', {'OUT_FILE': os.devnull, 'ST_BIG': big}, 4),
+            ('histories-export', 'MC_HashHistory.tla', 'MC_HashHistory_export.cfg', {'OUT_FILE': hists, 'ST_BIG': big}, 1)]
 
     def go(j):
         return j[0], run_tlc(j[1], j[2], work, env=j[3], workers=j[4], timeout=3000)
-    with ThreadPoolExecutor(max_workers=4) as ex:
+    with ThreadPoolExecutor(max_workers=6) as ex:
         for name, res in ex.map(go, jobs):
             ctx.add_tlc(name, res)
 
@@ -560,6 +655,14 @@ def run(ctx):
         meta[eid] = {'kind': 'chain', 'start': e['d'], 'path': e['path']}
         ctx.count(['chain', e['d'], e['path']], len(e['path']) > 1)
     ctx.extra['chains_replayed'] = len(cevs)
+
+    hevs = history_events(hists, eid + 1)
+    for e in hevs:
+        eid = e['id']
+        extra_events.append(e)
+        meta[eid] = {'kind': 'hist', 'acts': e['acts']}
+        ctx.count(['hist', e['acts']], any(a['a'].startswith('mutate') for a in e['acts']))
+    ctx.extra['histories_replayed'] = len(hevs)
 
     # the same objects AFTER all of the above (cached real / complex spaces, lazily computed attributes) and after
     # an in-place modification of every wrapped weight array: the laws and layer A must still hold
@@ -697,7 +800,7 @@ def replay(body):
         print('REPRODUCED' if bad else 'NOT-REPRODUCED')
         return 1 if bad else 0
     ev, m = d['event'], d['meta']
-    if d['stage'] != 'chain':
+    if d['stage'] not in ('chain', 'hist'):
         recs = [{'oid': 1, 'k': 1, 'copy': 1, 'd': ev['spc']}]
         sp = b.build(ev['spc'], 1)
         print('space =', L.safe_repr(sp, 200))
@@ -715,6 +818,13 @@ def replay(body):
                 bad = res == ev['out']
                 print('REPRODUCED' if bad else 'NOT-REPRODUCED')
                 return 1 if bad else 0
+    if d['stage'] == 'hist':
+        eq, hs, h = run_history(ev['acts'], ev['nw'])
+        print('history:', dumps(ev['acts']))
+        print('observed == matrix:', eq, ' hash classes:', h, hs)
+        bad = (eq, hs, h) == (ev['eq'], ev['hs'], ev['h'])
+        print('REPRODUCED' if bad else 'NOT-REPRODUCED')
+        return 1 if bad else 0
     if d['stage'] == 'chain':
         start = b.build(ev['d'], 1)
         res, oids = run_chain(start, ev['path'])
